@@ -36,6 +36,7 @@ type Engine struct {
 	lemmas        []*Lemma
 	effectFree    []string
 	nonNilResult  map[string]bool
+	localExtern   map[string]map[string]*FuncContract
 	inlinePkgs    map[string]bool
 	pkgByPath     map[string]*LoadedPkg
 	prog          *ssa.Program
@@ -272,6 +273,26 @@ func pkgPathOfDir(dir string) (string, error) {
 }
 
 // resolve contract keys once packages are loaded.
+func (eng *Engine) setLocalExtern(pkg, key string, fc *FuncContract) {
+	if eng.localExtern == nil {
+		eng.localExtern = map[string]map[string]*FuncContract{}
+	}
+	if eng.localExtern[pkg] == nil {
+		eng.localExtern[pkg] = map[string]*FuncContract{}
+	}
+	eng.localExtern[pkg][key] = fc
+}
+
+// contractAt: the contract that applies to a call of key made from package pkg.
+func (eng *Engine) contractAt(pkg, key string) *FuncContract {
+	if m := eng.localExtern[pkg]; m != nil {
+		if fc := m[key]; fc != nil {
+			return fc
+		}
+	}
+	return eng.contracts[key]
+}
+
 func (eng *Engine) resolveContracts() error {
 	for _, cf := range eng.contractFiles {
 		lp := eng.pkgByPath[cf.PkgPath]
@@ -287,7 +308,17 @@ func (eng *Engine) resolveContracts() error {
 				continue
 			}
 			if old, dup := eng.contracts[key]; dup && old != fc {
-				return fmt.Errorf("duplicate contract for %s (%s and %s)", key, old.File, fc.File)
+				// an extern (assumed) view of a function that also has a verified contract in its
+				// own package: the extern view applies to calls from the package that states it
+				switch {
+				case fc.Extern && !old.Extern:
+					eng.setLocalExtern(fc.PkgPath, key, fc)
+					continue
+				case old.Extern && !fc.Extern:
+					eng.setLocalExtern(old.PkgPath, key, old)
+				default:
+					return fmt.Errorf("duplicate contract for %s (%s and %s)", key, old.File, fc.File)
+				}
 			}
 			eng.contracts[key] = fc
 		}
